@@ -2147,9 +2147,14 @@ class RepeatingEngine(Engine):
             # VV: A RepeatingEngine will only restart once and only if its last exit-reason was ResourceExhausted
             self.log.info("Attempting restart of interrupted last task execution")
 
+            # The engine is alive from the moment the restart is decided, not from whenever the restart thread
+            # gets to run: a second POSTMORTEM notification handled in between must not find a dead engine
+            self.lastExecution = True
+
             try:
                 threading.Thread(target=runRestart).start()
             except Exception as error:
+                self.lastExecution = False
                 self.log.warning("Encountered error with launching restart thread - %s. Stopping" % error)
                 retval = experiment.model.codes.restartCodes["RestartCouldNotInitiate"]
             else:
